@@ -41,13 +41,10 @@ Holds(p, row) ==
 
 (* ---- bags as sequences --------------------------------------------------- *)
 Range(s) == {s[i] : i \in DOMAIN s}
-Count(s, x) == Cardinality({i \in DOMAIN s : s[i] = x})
+Count(s, x) == Len(SelectSeq(s, LAMBDA y : y = x))
 SameBag(s, t) == Len(s) = Len(t) /\ \A x \in Range(s) \cup Range(t) : Count(s, x) = Count(t, x)
 
-RECURSIVE Filter(_, _)
-Filter(rows, p) == IF rows = <<>> THEN <<>>
-                   ELSE IF Holds(p, Head(rows)) THEN <<Head(rows)>> \o Filter(Tail(rows), p)
-                   ELSE Filter(Tail(rows), p)
+Filter(rows, p) == SelectSeq(rows, LAMBDA r : Holds(p, r))
 Project(row, proj) == [i \in 1..Len(proj) |-> row[proj[i] + 1]]
 MapSeq(rows, proj) == [i \in 1..Len(rows) |-> Project(rows[i], proj)]
 
@@ -60,10 +57,7 @@ SetRow(row, set) == [i \in 1..Len(row) |->
                          THEN set[CHOOSE j \in 1..Len(set) : set[j][1] + 1 = i /\ \A k \in (j+1)..Len(set) : set[k][1] + 1 # i][2]
                          ELSE row[i]]
 Updated(rows, p, set) == [i \in 1..Len(rows) |-> IF Holds(p, rows[i]) THEN SetRow(rows[i], set) ELSE rows[i]]
-RECURSIVE Remove(_, _)
-Remove(rows, p) == IF rows = <<>> THEN <<>>
-                   ELSE IF Holds(p, Head(rows)) THEN Remove(Tail(rows), p)
-                   ELSE <<Head(rows)>> \o Remove(Tail(rows), p)
+Remove(rows, p) == SelectSeq(rows, LAMBDA r : ~Holds(p, r))
 
 (* ---- joins: tables ts = <<t1, t2(, t3)>>, a combined row is the concatenation ------------ *)
 (* on = sequence of <<ti, ci, tj, cj>> equalities (1-based table positions, 0-based columns); *)
@@ -93,6 +87,11 @@ Put(t, v) == [x \in DOMAIN tables \cup {t} |-> IF x = t THEN v ELSE tables[x]]
 
 Create(t, cols) == /\ ~HasTable(t) /\ tables' = Put(t, [cols |-> cols, rows |-> <<>>]) /\ UNCHANGED <<snap, intxn>>
 Insert(t, rows) == /\ HasTable(t) /\ tables' = Put(t, [tables[t] EXCEPT !.rows = @ \o rows]) /\ UNCHANGED <<snap, intxn>>
+(* rows committed by ANOTHER transaction while the modelled one is open: they are in the open transaction's view *)
+(* (no snapshot isolation) and they survive its abort                                                          *)
+InsertByOther(t, rows) == /\ HasTable(t) /\ intxn /\ t \in DOMAIN snap
+                          /\ tables' = Put(t, [tables[t] EXCEPT !.rows = @ \o rows])
+                          /\ snap' = [snap EXCEPT ![t] = [@ EXCEPT !.rows = @ \o rows]] /\ UNCHANGED intxn
 Update(t, p, set) == /\ HasTable(t) /\ tables' = Put(t, [tables[t] EXCEPT !.rows = Updated(@, p, set)]) /\ UNCHANGED <<snap, intxn>>
 Delete(t, p) == /\ HasTable(t) /\ tables' = Put(t, [tables[t] EXCEPT !.rows = Remove(@, p)]) /\ UNCHANGED <<snap, intxn>>
 Begin == ~intxn /\ intxn' = TRUE /\ snap' = tables /\ UNCHANGED tables
